@@ -1,10 +1,708 @@
-// Package c02: harness for property C02 (stub until built).
+// Package c02: AMM custody — pools stay solvent and every liquidity provider can always exit.
+//
+// Histories on the real x/liquiditypool + bank of the running application (package amm does the
+// per-step dumps).  On top of the shared per-step refinement this harness
+//   - observes, for every step, that no balance outside {acting user, this pool's two accounts}
+//     and no supply changed (k_others_same) and keeps the cumulative paid-in / paid-out of the
+//     pool's two accounts from the observed bank deltas (k_in / k_out);
+//   - runs directed scenarios (corpus): empty a pool and re-create a position (witness of the
+//     repaired resetPool defect), first positions at extreme price ratios (1 : 1e30 both ways),
+//     swaps that take (almost) everything the pool holds on one side, adjacent / nested ranges;
+//   - lets strangers try to decrease / claim / increase other people's positions;
+//   - at the end drains every pool (DecreaseLiquidity(all), which claims the fees, or
+//     ClaimRewards + DecreaseLiquidity) in ALL exit orders when the pool has few positions and in
+//     several orders otherwise, each order in a discarded cache context; every drain step is
+//     emitted with c_must_ok = true.
 package c02
 
-import "fmt"
+import (
+	"fmt"
+	"math"
+	"math/big"
+	"os"
+	"sort"
+	"strings"
 
-// Run generates n cases from seed, runs them on the real application and writes
-// cases_*.v and stats.json into outDir.
+	sdk "github.com/cosmos/cosmos-sdk/types"
+
+	lptypes "github.com/sunriselayer/sunrise/x/liquiditypool/types"
+
+	"verifharness/amm"
+	"verifharness/emit"
+)
+
+const rule = "one case per executed message (pre-state, op, result, post-state of the real module and bank, plus observed flows); " +
+	"non-trivial = a complete drain order of a pool whose history has >= 2 open positions with overlapping ranges and >= 1 successful swap, " +
+	"counted per distinct (pool, exit order) when the pool was drained in >= 2 orders; plus every non-owner attempt on an existing position (distinct by pool, kind, position)"
+
+type flow struct{ in, out [4]*big.Int }
+
+func newFlow() *flow {
+	f := &flow{}
+	for i := 0; i < 4; i++ {
+		f.in[i], f.out[i] = big.NewInt(0), big.NewInt(0)
+	}
+	return f
+}
+func (f *flow) clone() *flow {
+	g := newFlow()
+	for i := 0; i < 4; i++ {
+		g.in[i].Set(f.in[i])
+		g.out[i].Set(f.out[i])
+	}
+	return g
+}
+func vec(v [4]*big.Int) string {
+	s := make([]string, 4)
+	for i := range s {
+		s[i] = emit.Z(v[i])
+	}
+	return emit.List(s)
+}
+
+type poolHist struct {
+	flow    *flow
+	nops    int      // messages attempted on this pool so far (the unit of the dust bound)
+	swaps   int      // successful swaps
+	emptied int      // times the last position was removed
+	refills int      // times a position was created on an emptied pool
+	spMin   *big.Int // smallest non-zero sqrt price (raw) the pool has had; nil = none yet
+}
+
+func (h *poolHist) seePrice(s string) {
+	x := amm.C02Raw(s)
+	if x.Sign() > 0 && (h.spMin == nil || x.Cmp(h.spMin) < 0) {
+		h.spMin = x
+	}
+}
+func (h *poolHist) spMinZ() string {
+	if h.spMin == nil {
+		return "0"
+	}
+	return emit.Z(h.spMin)
+}
+
+type runner struct {
+	w      *amm.World
+	cf     *emit.CasesFile
+	st     *emit.Stats
+	hist   map[uint64]*poolHist
+	budget int
+	// measured dust after complete drains: max over drains of (dust units) and of dust/nops
+	maxDust      *big.Int
+	maxDustRatio float64
+	dustSamples  []string
+	failedDrains []string
+}
+
+func (r *runner) ph(p amm.PoolInfo) *poolHist {
+	h, ok := r.hist[p.ID]
+	if !ok {
+		h = &poolHist{flow: newFlow()}
+		r.hist[p.ID] = h
+	}
+	return h
+}
+
+// others renders every balance (and supply) that the step must not touch.
+func (r *runner) others(ctx sdk.Context, p amm.PoolInfo, user sdk.AccAddress) string {
+	var sb strings.Builder
+	denoms := append([]string{}, amm.AllDenoms...)
+	denoms = append(denoms, "uvrise")
+	put := func(a sdk.AccAddress) {
+		for _, d := range denoms {
+			sb.WriteString(r.w.H.Bal(ctx, a, d).String())
+			sb.WriteByte(',')
+		}
+		sb.WriteByte(';')
+	}
+	for _, a := range r.w.H.Accts {
+		if !a.Addr.Equals(user) {
+			put(a.Addr)
+		}
+	}
+	for _, q := range r.w.Pools {
+		if q.ID != p.ID {
+			put(lptypes.NewPoolAddress(q.ID))
+			put(lptypes.NewPoolFeesAddress(q.ID))
+		}
+	}
+	for _, d := range denoms {
+		sb.WriteString(r.w.H.Supply(ctx, d).String())
+		sb.WriteByte(',')
+	}
+	return sb.String()
+}
+
+func (r *runner) custody(ctx sdk.Context, p amm.PoolInfo) (pool, fee [4]*big.Int) {
+	for i, d := range p.Denoms {
+		pool[i] = r.w.H.Bal(ctx, lptypes.NewPoolAddress(p.ID), d).BigInt()
+		fee[i] = r.w.H.Bal(ctx, lptypes.NewPoolFeesAddress(p.ID), d).BigInt()
+	}
+	return
+}
+
+// step executes one message with all observations and emits the case. `h` is the history record
+// to update (the committed one, or a clone for steps inside a discarded context).
+func (r *runner) step(ctx sdk.Context, p amm.PoolInfo, o amm.Op, mustOK bool, h *poolHist, extra map[string]any) error {
+	user := r.w.H.Accts[o.Sender%len(r.w.H.Accts)].Addr
+	before := r.others(ctx, p, user)
+	pb, fb := r.custody(ctx, p)
+	nposBefore := len(r.w.C02Positions(ctx, p))
+	if pl, found, _ := r.w.K.GetPool(ctx, p.ID); found {
+		h.seePrice(pl.CurrentSqrtPrice)
+	}
+	term, err := r.w.Step(ctx, p, o, mustOK)
+	if pl, found, _ := r.w.K.GetPool(ctx, p.ID); found {
+		h.seePrice(pl.CurrentSqrtPrice)
+	}
+	pa, fa := r.custody(ctx, p)
+	after := r.others(ctx, p, user)
+	nposAfter := len(r.w.C02Positions(ctx, p))
+	for i := 0; i < 4; i++ {
+		for _, d := range []*big.Int{new(big.Int).Sub(pa[i], pb[i]), new(big.Int).Sub(fa[i], fb[i])} {
+			if d.Sign() > 0 {
+				h.flow.in[i].Add(h.flow.in[i], d)
+			} else {
+				h.flow.out[i].Sub(h.flow.out[i], d)
+			}
+		}
+	}
+	h.nops++
+	if err == nil && o.Kind == "swap" {
+		h.swaps++
+	}
+	if nposBefore > 0 && nposAfter == 0 {
+		h.emptied++
+	}
+	if nposBefore == 0 && nposAfter > 0 && h.emptied > 0 {
+		h.refills++
+	}
+	r.cf.Add(fmt.Sprintf("{| k_case := %s; k_nops := %d; k_others_same := %s; k_in := %s; k_out := %s; k_sp_min := %s |}",
+		term, h.nops, emit.Bool(before == after), vec(h.flow.in), vec(h.flow.out), h.spMinZ()))
+	info := o.Info()
+	info["pool"] = p.ID
+	info["pool_params"] = fmt.Sprintf("fee=%s ratio=%s offset=%s denoms=%v", p.Fee, p.Ratio, p.Offset, p.Denoms[:2])
+	info["must_ok"] = mustOK
+	for k, v := range extra {
+		info[k] = v
+	}
+	if err != nil {
+		info["err"] = err.Error()
+		r.st.Count(o.Kind + ":err")
+		if mustOK {
+			r.st.Count("drain-step:FAILED")
+			r.failedDrains = append(r.failedDrains, fmt.Sprintf("pool %d pid %d tag %s: %v", p.ID, o.Pid, o.Tag, err))
+		}
+	} else {
+		r.st.Count(o.Kind + ":ok")
+		r.st.Sample(info)
+	}
+	if nposBefore > 0 && nposAfter == 0 {
+		r.st.Count("pool-emptied")
+		// measured dust: what the two accounts still hold once nobody is left
+		for i := 0; i < 2; i++ {
+			d := new(big.Int).Add(pa[i], fa[i])
+			if d.Cmp(r.maxDust) > 0 {
+				r.maxDust.Set(d)
+			}
+			f, _ := new(big.Float).SetInt(d).Float64()
+			if ratio := f / float64(h.nops); ratio > r.maxDustRatio {
+				r.maxDustRatio = ratio
+			}
+		}
+		if len(r.dustSamples) < 40 {
+			r.dustSamples = append(r.dustSamples, fmt.Sprintf("pool %d nops %d: pool=[%s %s] fee=[%s %s %s %s] in=[%s %s]", p.ID, h.nops,
+				pa[0], pa[1], fa[0], fa[1], fa[2], fa[3], h.flow.in[0], h.flow.in[1]))
+		}
+		info["dust_pool"] = []string{pa[0].String(), pa[1].String()}
+		info["dust_fee"] = []string{fa[0].String(), fa[1].String(), fa[2].String(), fa[3].String()}
+	}
+	r.st.Info(info)
+	r.st.Evaluations++
+	r.budget--
+	return err
+}
+
+func (r *runner) commit(ctx sdk.Context, p amm.PoolInfo, o amm.Op) error {
+	return r.step(ctx, p, o, false, r.ph(p), nil)
+}
+
+// ---------- stranger attempts ----------
+
+// strangerOps: every way a non-owner could try to move a position's funds.
+func (r *runner) strangerOps(ctx sdk.Context, p amm.PoolInfo, q lptypes.Position, kind int) amm.Op {
+	w := r.w
+	owner := w.C02UserIndex(q.Address)
+	stranger := (owner + 1 + w.R.Intn(3)) % 4 // any of the three other accounts (3 never owns anything)
+	liq := amm.C02Raw(q.Liquidity)
+	switch kind % 6 {
+	case 0:
+		return amm.Op{Kind: "decrease", Sender: stranger, Pid: q.Id, Liq: liq, Tag: "stranger/decrease-all"}
+	case 1:
+		return amm.Op{Kind: "decrease", Sender: stranger, Pid: q.Id, Liq: big.NewInt(1), Tag: "stranger/decrease-1ulp"}
+	case 2:
+		return amm.Op{Kind: "claim", Sender: stranger, Pids: []uint64{q.Id}, Tag: "stranger/claim"}
+	case 3:
+		// a list that starts with one of the stranger's own positions (if any) and then names the victim
+		ids := []uint64{}
+		for _, x := range w.C02Positions(ctx, p) {
+			if w.C02UserIndex(x.Address) == stranger {
+				ids = append(ids, x.Id)
+				break
+			}
+		}
+		ids = append(ids, q.Id)
+		return amm.Op{Kind: "claim", Sender: stranger, Pids: ids, Tag: "stranger/claim-mixed-list"}
+	case 4:
+		return amm.Op{Kind: "increase", Sender: stranger, Pid: q.Id, Base: big.NewInt(1000), Quote: big.NewInt(1000), MinBase: big.NewInt(0), MinQuote: big.NewInt(0), Tag: "stranger/increase"}
+	default:
+		half := new(big.Int).Div(liq, big.NewInt(2))
+		return amm.Op{Kind: "decrease", Sender: stranger, Pid: q.Id, Liq: half, Tag: "stranger/decrease-half"}
+	}
+}
+
+func (r *runner) stranger(ctx sdk.Context, p amm.PoolInfo, kind int) {
+	poss := r.w.C02Positions(ctx, p)
+	if len(poss) == 0 {
+		return
+	}
+	q := poss[r.w.R.Intn(len(poss))]
+	o := r.strangerOps(ctx, p, q, kind)
+	err := r.commit(ctx, p, o)
+	r.st.Count("stranger-attempt")
+	if err == nil {
+		r.st.Count("stranger-attempt:SUCCEEDED")
+	}
+	r.st.Nontriv(fmt.Sprintf("stranger/%d/%s/%d", p.ID, o.Tag, q.Id))
+}
+
+// ---------- drains ----------
+
+func permutations(n int) [][]int {
+	if n == 0 {
+		return [][]int{{}}
+	}
+	var out [][]int
+	for _, p := range permutations(n - 1) {
+		for i := 0; i <= len(p); i++ {
+			q := append(append(append([]int{}, p[:i]...), n-1), p[i:]...)
+			out = append(out, q)
+		}
+	}
+	return out
+}
+
+func overlapping(poss []lptypes.Position) bool {
+	for i := range poss {
+		for j := i + 1; j < len(poss); j++ {
+			if poss[i].LowerTick < poss[j].UpperTick && poss[j].LowerTick < poss[i].UpperTick {
+				return true
+			}
+		}
+	}
+	return false
+}
+
+// drainOrder exits every position of p in the given order inside a discarded cache context.
+// claimFirst: ClaimRewards then DecreaseLiquidity instead of DecreaseLiquidity alone.
+func (r *runner) drainOrder(ctx sdk.Context, p amm.PoolInfo, poss []lptypes.Position, order []int, claimFirst bool, label string) bool {
+	c, _ := ctx.CacheContext()
+	base := r.ph(p)
+	h := &poolHist{flow: base.flow.clone(), nops: base.nops, swaps: base.swaps, emptied: base.emptied, refills: base.refills}
+	if base.spMin != nil {
+		h.spMin = new(big.Int).Set(base.spMin)
+	}
+	ok := true
+	ids := []string{}
+	for _, k := range order {
+		q := poss[k]
+		ids = append(ids, fmt.Sprint(q.Id))
+		owner := r.w.C02UserIndex(q.Address)
+		ex := map[string]any{"drain": label}
+		if claimFirst {
+			if err := r.step(c, p, amm.Op{Kind: "claim", Sender: owner, Pids: []uint64{q.Id}, Tag: "drain/claim/" + label}, true, h, ex); err != nil {
+				ok = false
+			}
+		}
+		if err := r.step(c, p, amm.Op{Kind: "decrease", Sender: owner, Pid: q.Id, Liq: amm.C02Raw(q.Liquidity), Tag: "drain/decrease/" + label}, true, h, ex); err != nil {
+			ok = false
+		}
+	}
+	r.st.Count("drain-order")
+	if left := len(r.w.C02Positions(c, p)); left != 0 {
+		r.st.Count("drain-order:INCOMPLETE")
+		ok = false
+	}
+	if !ok {
+		r.st.Count("drain-order:FAILED")
+		r.failedDrains = append(r.failedDrains, fmt.Sprintf("pool %d order [%s] (%s)", p.ID, strings.Join(ids, " "), label))
+	}
+	return ok
+}
+
+// drainPool: all exit orders when the pool has at most maxAll positions, otherwise
+// ascending, descending and random orders; one extra order with claim-then-decrease.
+func (r *runner) drainPool(ctx sdk.Context, p amm.PoolInfo, maxAll, maxOrders int, label string) {
+	poss := r.w.C02Positions(ctx, p)
+	if len(poss) == 0 {
+		return
+	}
+	sort.Slice(poss, func(i, j int) bool { return poss[i].Id < poss[j].Id })
+	n := len(poss)
+	var orders [][]int
+	if n <= maxAll {
+		orders = permutations(n)
+		// a deterministic shuffle so that a truncated list is still varied
+		for i := len(orders) - 1; i > 0; i-- {
+			j := r.w.R.Intn(i + 1)
+			orders[i], orders[j] = orders[j], orders[i]
+		}
+	} else {
+		asc := make([]int, n)
+		desc := make([]int, n)
+		for i := range asc {
+			asc[i], desc[i] = i, n-1-i
+		}
+		orders = append(orders, asc, desc)
+		for k := 0; k < maxOrders; k++ {
+			o := append([]int{}, asc...)
+			for i := n - 1; i > 0; i-- {
+				j := r.w.R.Intn(i + 1)
+				o[i], o[j] = o[j], o[i]
+			}
+			orders = append(orders, o)
+		}
+	}
+	if len(orders) > maxOrders {
+		orders = orders[:maxOrders]
+	}
+	h := r.ph(p)
+	nontriv := n >= 2 && overlapping(poss) && h.swaps >= 1 && len(orders) >= 2
+	for k, o := range orders {
+		if r.budget < n && k >= 2 {
+			r.st.Count("drain-order:skipped-budget")
+			break
+		}
+		claimFirst := k == len(orders)-1 && len(orders) > 1
+		r.drainOrder(ctx, p, poss, o, claimFirst, fmt.Sprintf("%s/order%d", label, k))
+		if nontriv {
+			r.st.Nontriv(fmt.Sprintf("drain/%d/%s/%v", p.ID, label, o))
+		}
+	}
+	if nontriv {
+		r.st.Count("nontrivial-pool-drains")
+	}
+}
+
+// ---------- directed scenarios (corpus) ----------
+
+func bi(s string) *big.Int {
+	x, ok := new(big.Int).SetString(s, 10)
+	if !ok {
+		panic("bad int " + s)
+	}
+	return x
+}
+
+func create(sender int, lo, up int64, base, quote *big.Int, tag string) amm.Op {
+	return amm.Op{Kind: "create", Sender: sender, Lower: lo, Upper: up, Base: base, Quote: quote, MinBase: big.NewInt(0), MinQuote: big.NewInt(0), Tag: tag}
+}
+func swapOp(sender int, exactIn bool, denomIn int, amt *big.Int, tag string) amm.Op {
+	return amm.Op{Kind: "swap", Sender: sender, ExactIn: exactIn, DenomIn: denomIn, Amount: amt, Tag: tag}
+}
+
+// tickOf estimates the tick of price quote/base for the pool's parameters (floating point; only
+// used to place ranges around the price the first position will establish).
+func tickOf(p amm.PoolInfo, base, quote *big.Int) int64 {
+	b, _ := new(big.Float).SetInt(base).Float64()
+	q, _ := new(big.Float).SetInt(quote).Float64()
+	var ratio, off float64
+	fmt.Sscan(p.Ratio, &ratio)
+	fmt.Sscan(p.Offset, &off)
+	return int64(math.Floor(math.Log(q/b)/math.Log(ratio) - off))
+}
+
+func (r *runner) decreaseAll(ctx sdk.Context, p amm.PoolInfo, tag string) {
+	for _, q := range r.w.C02Positions(ctx, p) {
+		r.commit(ctx, p, amm.Op{Kind: "decrease", Sender: r.w.C02UserIndex(q.Address), Pid: q.Id, Liq: amm.C02Raw(q.Liquidity), Tag: tag})
+	}
+}
+
+// takeAlmostAll: an exact-out swap for as much of the pool's holdings of one side as the pool will
+// give (tries balance-k for small k and a geometric back-off), committed if one succeeds.
+func (r *runner) takeAlmostAll(ctx sdk.Context, p amm.PoolInfo, sender, denomOut int) {
+	bal := r.w.H.Bal(ctx, lptypes.NewPoolAddress(p.ID), p.Denoms[denomOut]).BigInt()
+	cands := []*big.Int{}
+	for k := int64(0); k <= 3; k++ {
+		cands = append(cands, new(big.Int).Sub(bal, big.NewInt(k)))
+	}
+	for _, num := range []int64{999999, 99999, 9999, 999, 99, 9} {
+		x := new(big.Int).Mul(bal, big.NewInt(num))
+		cands = append(cands, x.Div(x, big.NewInt(num+1)))
+	}
+	for _, amt := range cands {
+		if amt.Sign() <= 0 {
+			continue
+		}
+		o := swapOp(sender, false, 1-denomOut, amt, "swap-take-almost-all")
+		c, _ := ctx.CacheContext()
+		if _, err := r.w.Exec(c, p, o); err == nil {
+			r.commit(ctx, p, o)
+			r.st.Count("scenario:took-almost-all")
+			return
+		}
+	}
+	// nothing succeeded: still record the largest attempt as a (failing) step
+	r.commit(ctx, p, swapOp(sender, false, 1-denomOut, new(big.Int).Set(bal), "swap-take-all-fails"))
+}
+
+func (r *runner) scenarioEmptyRefill(ctx sdk.Context, thorough bool) error {
+	maxOrders := 2
+	if thorough {
+		maxOrders = 24
+	}
+	p, err := r.w.CreatePool("urise", "uusdc", "0.003", "1.0001", "0.5")
+	if err != nil {
+		return err
+	}
+	// witness of the repaired resetPool defect: the active liquidity stayed behind after the pool was emptied
+	r.commit(ctx, p, create(0, -480, 480, bi("1000000"), bi("1000000"), "corpus/first"))
+	r.decreaseAll(ctx, p, "corpus/empty")
+	r.commit(ctx, p, create(1, -480, 480, bi("1000"), bi("1000"), "corpus/refill"))
+	r.commit(ctx, p, swapOp(2, true, 0, bi("500"), "corpus/swap-after-refill"))
+	r.commit(ctx, p, swapOp(2, true, 1, bi("700"), "corpus/swap-after-refill"))
+	r.commit(ctx, p, create(2, -100, 200, bi("5000"), bi("3000"), "corpus/second-after-refill"))
+	r.commit(ctx, p, swapOp(0, false, 1, bi("900"), "corpus/swap-out"))
+	r.drainPool(ctx, p, 4, maxOrders, "corpus-refill")
+	// empty it for real, refill again with very different amounts, trade, drain
+	r.decreaseAll(ctx, p, "corpus/empty-2")
+	r.commit(ctx, p, create(0, -900, -500, bi("123456789"), bi("987654321"), "corpus/refill-2-out-of-range-first"))
+	r.commit(ctx, p, create(1, -600, 600, bi("7"), bi("3"), "corpus/refill-2"))
+	r.commit(ctx, p, swapOp(2, true, 0, bi("1"), "corpus/swap-1"))
+	r.commit(ctx, p, swapOp(2, true, 1, bi("1"), "corpus/swap-1"))
+	r.drainPool(ctx, p, 4, maxOrders, "corpus-refill-2")
+	return nil
+}
+
+// extreme first positions: amounts 1e30 : small and small : 1e30 on a pool with a coarse tick grid
+func (r *runner) scenarioExtreme(ctx sdk.Context, base, quote string, fee string, maxOrders int) error {
+	p, err := r.w.CreatePool("uatom", "uosmo", fee, "1.1", "0.25")
+	if err != nil {
+		return err
+	}
+	b, q := bi(base), bi(quote)
+	t := tickOf(p, b, q)
+	r.commit(ctx, p, create(0, t-60, t+60, b, q, "extreme/first"))
+	pool, _, _ := r.w.K.GetPool(ctx, p.ID)
+	cur := pool.CurrentTick
+	big30, small := b, q
+	if q.Cmp(b) > 0 {
+		big30, small = q, b
+	}
+	tenth := new(big.Int).Div(big30, big.NewInt(7))
+	// a second provider with overlapping range, a third with a nested one
+	r.commit(ctx, p, create(1, cur-20, cur+35, new(big.Int).Div(b, big.NewInt(3)), new(big.Int).Div(q, big.NewInt(3)), "extreme/overlap"))
+	r.commit(ctx, p, create(2, cur-3, cur+4, new(big.Int).Div(b, big.NewInt(11)), new(big.Int).Div(q, big.NewInt(11)), "extreme/nested"))
+	dBig, dSmall := 0, 1
+	if q.Cmp(b) > 0 {
+		dBig, dSmall = 1, 0
+	}
+	// trade the abundant side in and out, and the scarce side unit by unit
+	r.commit(ctx, p, swapOp(3, true, dBig, tenth, "extreme/swap-big-in"))
+	r.commit(ctx, p, swapOp(3, true, dSmall, new(big.Int).Add(new(big.Int).Div(small, big.NewInt(5)), big.NewInt(1)), "extreme/swap-small-in"))
+	r.commit(ctx, p, swapOp(3, false, dSmall, new(big.Int).Div(tenth, big.NewInt(3)), "extreme/swap-big-out"))
+	r.commit(ctx, p, swapOp(3, true, dSmall, big.NewInt(1), "extreme/swap-1"))
+	r.commit(ctx, p, swapOp(3, false, dBig, big.NewInt(1), "extreme/swap-out-1"))
+	r.stranger(ctx, p, 0)
+	r.drainPool(ctx, p, 4, maxOrders, "extreme")
+	return nil
+}
+
+// quote-only liquidity far below a tiny first price, then swaps that walk the price down into it:
+// the regime where the base-side formulas divide twice by a sqrt price of 1e-9 .. 1e-13, so that
+// one unit in the last place of an intermediate result is worth many whole base units
+func (r *runner) scenarioTinyPrice(ctx sdk.Context, base, quote string, fee string, lo1, up1, lo2, up2 int64, drainEach bool) error {
+	p, err := r.w.CreatePool("uosmo", "urise", fee, "1.1", "0")
+	if err != nil {
+		return err
+	}
+	b, q := bi(base), bi(quote)
+	t := tickOf(p, b, q)
+	r.commit(ctx, p, create(0, t-lo1, t-up1, b, q, "tiny/first-quote-only"))
+	r.commit(ctx, p, create(1, t-lo2, t-up2, b, new(big.Int).Mul(q, big.NewInt(3)), "tiny/second-quote-only"))
+	// walk down: sell base in chunks sized from what the pool will accept
+	for k := 0; k < 4; k++ {
+		amt := new(big.Int).Div(b, big.NewInt(int64(3+2*k)))
+		r.commit(ctx, p, swapOp(3, true, 0, amt, "tiny/sell-base"))
+		if drainEach {
+			r.drainPool(ctx, p, 4, 2, fmt.Sprintf("tiny-after-swap%d", k))
+		}
+	}
+	r.commit(ctx, p, swapOp(3, false, 1, big.NewInt(1), "tiny/buy-base-1"))
+	r.commit(ctx, p, swapOp(3, true, 1, big.NewInt(7), "tiny/sell-quote-7"))
+	r.commit(ctx, p, swapOp(2, true, 0, new(big.Int).Div(b, big.NewInt(1000)), "tiny/sell-base-small"))
+	r.stranger(ctx, p, 5)
+	r.drainPool(ctx, p, 4, 6, "tiny")
+	return nil
+}
+
+// minimal witness of finding C02-F1 (half-even intermediates in CalcAmountBaseDelta): one
+// quote-only position below a first price of 1e-18, two swaps selling base into it, and the only
+// liquidity provider cannot withdraw: the pool account is one unit short.
+func (r *runner) scenarioF1(ctx sdk.Context) error {
+	p, err := r.w.CreatePool("uosmo", "urise", "0.003", "1.1", "0")
+	if err != nil {
+		return err
+	}
+	b := bi("1000000000000000000000")
+	t := tickOf(p, b, big.NewInt(1000))
+	r.commit(ctx, p, create(0, t-40, t-5, b, big.NewInt(1000), "F1/first-quote-only"))
+	r.commit(ctx, p, swapOp(3, true, 0, new(big.Int).Div(b, big.NewInt(3)), "F1/sell-base"))
+	r.commit(ctx, p, swapOp(3, true, 0, new(big.Int).Div(b, big.NewInt(4)), "F1/sell-base"))
+	r.drainPool(ctx, p, 4, 1, "F1")
+	return nil
+}
+
+// adjacent ranges, then take (almost) everything the pool holds on one side, then drain
+func (r *runner) scenarioExhaust(ctx sdk.Context, maxOrders int) error {
+	p, err := r.w.CreatePool("uusdc", "uatom", "0.01", "1.001", "0")
+	if err != nil {
+		return err
+	}
+	r.commit(ctx, p, create(0, -400, 400, bi("50000000"), bi("50000000"), "exhaust/first"))
+	r.commit(ctx, p, create(1, 400, 900, bi("30000000"), bi("0"), "exhaust/adjacent-above"))
+	r.commit(ctx, p, create(2, -900, -400, bi("0"), bi("20000000"), "exhaust/adjacent-below"))
+	r.commit(ctx, p, create(1, -100, 100, bi("999"), bi("1001"), "exhaust/nested"))
+	r.takeAlmostAll(ctx, p, 3, 0) // buy all the base: price runs up through the adjacent range
+	r.stranger(ctx, p, 2)
+	r.drainPool(ctx, p, 4, maxOrders, "exhaust-base")
+	r.takeAlmostAll(ctx, p, 3, 1) // then all the quote: price runs all the way down
+	r.drainPool(ctx, p, 4, maxOrders, "exhaust-quote")
+	return nil
+}
+
+// ---------- the run ----------
+
 func Run(seed int64, n int, outDir string) error {
-	return fmt.Errorf("c02: harness not built yet")
+	w := amm.NewWorld(seed)
+	defer w.H.Close()
+	if os.Getenv("C02_EXPLORE") != "" {
+		explore(w)
+	}
+	r := &runner{w: w, hist: map[uint64]*poolHist{}, budget: n, maxDust: big.NewInt(0)}
+	r.st = emit.NewStats("C02", seed, rule)
+	r.cf = &emit.CasesFile{Import: "Amm.C02Check", Runner: "run", Type: "c02_case"}
+	ctx := w.H.Ctx()
+
+	// corpus first: the refill witness and the minimal witness of finding C02-F1 always; the three
+	// directed families all in thorough, one per seed (rotating) in quick
+	thorough := n >= 600
+	if err := r.scenarioEmptyRefill(ctx, thorough); err != nil {
+		return err
+	}
+	if err := r.scenarioF1(ctx); err != nil {
+		return err
+	}
+	extremes := [][3]string{
+		{"1000000000000000000000000000000", "1000", "0.05"},
+		{"1000", "1000000000000000000000000000000", "0.003"},
+		{"1000000000000000000000000000000", "1", "0"},
+		{"3", "999999999999999999999999999999", "0.3"},
+	}
+	tiny := [][3]string{
+		{"1000000000000000000000000000", "1000", "0.003"},
+		{"1000000000000000000000000000000", "1000000", "0.0001"},
+		{"100000000000000000000000", "100000", "0.01"},
+		{"1000000000000000000000000000000", "10", "0.05"},
+	}
+	if thorough {
+		for _, e := range extremes {
+			if err := r.scenarioExtreme(ctx, e[0], e[1], e[2], 6); err != nil {
+				return err
+			}
+		}
+		for _, e := range tiny {
+			if err := r.scenarioTinyPrice(ctx, e[0], e[1], e[2], 40, 5, 20, 10, true); err != nil {
+				return err
+			}
+		}
+		if err := r.scenarioExhaust(ctx, 5); err != nil {
+			return err
+		}
+	} else {
+		var err error
+		k := int(uint64(seed) / 3 % 4)
+		switch uint64(seed) % 3 {
+		case 0:
+			err = r.scenarioExtreme(ctx, extremes[k][0], extremes[k][1], extremes[k][2], 3)
+		case 1:
+			err = r.scenarioTinyPrice(ctx, tiny[k][0], tiny[k][1], tiny[k][2], 40, 5, 20, 10, false)
+		default:
+			err = r.scenarioExhaust(ctx, 2)
+		}
+		if err != nil {
+			return err
+		}
+	}
+	nCorpusPools := len(w.Pools)
+
+	// generated histories on fresh pools
+	nGen := 3
+	if n >= 600 {
+		nGen = 5
+	}
+	if err := w.SetupPools(nGen); err != nil {
+		return err
+	}
+	gen := w.Pools[nCorpusPools:]
+	// keep roughly 45% of the remaining budget for the final drains
+	steps := r.budget * 55 / 100
+	for i := 0; i < steps; i++ {
+		p := gen[w.R.Intn(len(gen))]
+		switch {
+		case w.R.Chance(1, 7):
+			r.stranger(ctx, p, w.R.Intn(6))
+		case w.R.Chance(1, 14) && len(w.C02Positions(ctx, p)) > 0:
+			// amounts over the whole range 1 .. 1e30 around the current tick
+			pool, _, _ := w.K.GetPool(ctx, p.ID)
+			a, b := int64(1+w.R.Intn(int(p.C02Span()))), int64(1+w.R.Intn(int(p.C02Span())))
+			r.commit(ctx, p, create(w.R.Intn(3), pool.CurrentTick-a, pool.CurrentTick+b, w.R.LogUniform(30), w.R.LogUniform(30), "create-1-to-1e30"))
+		case w.R.Chance(1, 40) && len(w.C02Positions(ctx, p)) > 0:
+			r.takeAlmostAll(ctx, p, 3, w.R.Intn(2))
+		case w.R.Chance(1, 45) && len(w.C02Positions(ctx, p)) > 0:
+			// everybody leaves mid-history; the pool is refilled by the next generated create
+			r.decreaseAll(ctx, p, "everybody-leaves")
+		default:
+			r.commit(ctx, p, w.GenOp(ctx, p))
+		}
+		if w.R.Chance(1, 25) {
+			if _, err := w.H.NextBlock(1e9); err != nil {
+				return fmt.Errorf("block failed: %w", err)
+			}
+			ctx = w.H.Ctx()
+		}
+	}
+	// final drains of the generated pools
+	maxAll, maxOrders := 3, 6
+	if n >= 600 {
+		maxAll, maxOrders = 4, 24
+	}
+	for _, p := range gen {
+		r.drainPool(ctx, p, maxAll, maxOrders, "final")
+	}
+	for _, p := range w.Pools {
+		h := r.ph(p)
+		if h.refills > 0 {
+			r.st.Count("pools-emptied-and-refilled")
+		}
+	}
+	r.st.Extra["max_dust_units_after_complete_drain"] = r.maxDust.String()
+	r.st.Extra["max_dust_per_operation"] = r.maxDustRatio
+	r.st.Extra["dust_samples"] = r.dustSamples
+	r.st.Extra["failed_drains"] = r.failedDrains
+	if _, err := r.cf.Write(outDir, "cases", 11); err != nil {
+		return err
+	}
+	return r.st.Write(outDir)
 }
